@@ -519,7 +519,7 @@ func checkRefsFor(p *Program, r *Report) {
 			if ist, ok := p.namedType("indexedTableRefIter").Underlying().(*types.Struct); ok {
 				for i := 0; i < ist.NumFields(); i++ {
 					if n, ok := ist.Field(i).Type().(*types.Named); ok && n.Obj().Name() == "blockIter" {
-						curField = "indexedTableRefIter." + ist.Field(i).Name()
+						curField = "indexedTableRefIter." + fname(ist.Field(i))
 					}
 				}
 			}
@@ -602,7 +602,7 @@ func checkRefsFor(p *Program, r *Report) {
 			if ld, ok := ci.Common().Args[1].(*ssa.UnOp); ok {
 				if fa, ok := ld.X.(*ssa.FieldAddr); ok {
 					st := fa.X.Type().Underlying().(*types.Pointer).Elem().Underlying().(*types.Struct)
-					fields = append(fields, st.Field(fa.Field).Name())
+					fields = append(fields, fname(st.Field(fa.Field)))
 				}
 			}
 		}
